@@ -371,8 +371,8 @@ class SolverIR:
                         and isinstance(it, ast.Call) and isinstance(it.func, ast.Attribute) and it.func.attr == 'items' and not it.args:
                     # for key, value in d.items():  ==  for key in d.keys(): value = d[key]
                     kname, vname = node.target.elts[0].id, node.target.elts[1].id
-                    key = Unk(f'each<{ast.unparse(it.func.value)[:50]}.keys()>')
                     dval = self.sx.eval1(it.func.value, st, frame)
+                    key = Unk(f'each<{self.sx.show(dval)[:60]}.keys()>')
                     L.kind = 'each'
                     L.var = kname
                     L.iter_text = ast.unparse(it.func.value)[:100] + '.keys()'
@@ -385,7 +385,23 @@ class SolverIR:
                 else:
                     L.kind = 'each'
                     L.var = node.target.id
-                    env_binds[L.var] = Unk(f'each<{ast.unparse(node.iter)[:60]}>')
+                    text = ast.unparse(node.iter)[:60]
+                    # name the generic element by the VALUE iterated over, so that a local alias of the collection
+                    # (`recorded = element.time_variables`) gives the same atom as the spelled-out expression
+                    if isinstance(it, ast.Call) and isinstance(it.func, ast.Attribute) and it.func.attr in ('keys', 'values') and not it.args:
+                        try:
+                            text = self.sx.show(self.sx.eval1(it.func.value, st, frame))[:60] + f'.{it.func.attr}()'
+                        except CannotDecide:
+                            pass
+                    elif isinstance(it, (ast.Name, ast.Attribute)):
+                        try:
+                            v_ = self.sx.eval1(it, st, frame)
+                            if isinstance(v_, (Unk, Dyn)):
+                                text = self.sx.show(v_)[:60]
+                        except CannotDecide:
+                            pass
+                    L.iter_text = text
+                    env_binds[L.var] = Unk(f'each<{text}>')
                     r = ((Rat.const(0), Rat.const(0)), None)
             (a, b), base = r
             if L.kind != 'each':
